@@ -37,7 +37,7 @@ type Stats struct {
 
 // Solver drives one long-lived `z3 -in` process. Assertions form a stack (Push/Pop).
 type Solver struct {
-	marker int
+	marker  int
 	Ctx     *Ctx
 	cmd     *exec.Cmd
 	in      io.WriteCloser
